@@ -140,6 +140,12 @@ type BigV struct {
 	V    *sym.Term
 	Bits int
 	Poison bool // computed during package init outside the model width: any later use ends the path as unsupported
+	Cell   *bigCell // set once the big.Int has been copied BY VALUE: such copies share their limbs, so an in-place operation on one is visible through the other (as long as the capacity suffices, which it does for the one-word values of the model)
+}
+
+type bigCell struct {
+	V    *sym.Term
+	Bits int
 }
 
 type OpaqueV struct {
@@ -312,7 +318,7 @@ func copyVal(v Value) Value {
 		}
 		return n
 	case *BigV:
-		return &BigV{V: x.V, Bits: x.Bits, Poison: x.Poison}
+		return &BigV{V: x.V, Bits: x.Bits, Poison: x.Poison, Cell: x.Cell}
 	case TupleV:
 		n := make(TupleV, len(x))
 		for i, f := range x {
